@@ -226,6 +226,7 @@ def one_pass(vlib, impl, model, rng, tier, known, classes):
     flines = pl + flines
     fo = [po[l] for l in pl] + fo
     term_by = {}
+    written = dict((n, (kind, c[2], c[3])) for n, kind, c in counts)      # scenario -> (kind, bytes the fault-free save writes, its answer)
     for l, a in zip(flines, fo):
         t = l.split(" ")
         ax = t[2]
@@ -236,6 +237,12 @@ def one_pass(vlib, impl, model, rng, tier, known, classes):
             if ax == "trunc" and a == "OK" and t[1].startswith("mp_"):
                 failing.append(dict(driver="fault", case=l, implementation=a, expected="EXC(<category>): every strict prefix of a MessagePack document must be rejected",
                                     judge="FAIL", why="a strict prefix of a MessagePack document was loaded without an error"))
+            # an output stream that refuses (or throws at) a byte the save does write: returning normally is a silently truncated document
+            kind, sbytes, plain = written.get(t[1], ("", 0, ""))
+            if ax in ("sfail", "sthrow") and a == "OK" and kind == "ss" and plain == "OK" and len(t) >= 4 and int(t[3]) < sbytes:
+                failing.append(dict(driver="fault", case=l, implementation=a,
+                                    expected="EXC(<category>): the stream refused byte %s of the %d the save writes" % (t[3], sbytes), judge="FAIL",
+                                    why="the output stream failed at byte %s and SaveObject returned normally: the failure did not reach the caller" % t[3]))
             continue
         kid = explain(known, l, a) if a.startswith(("TERMINATE", "HANG")) else None
         if kid:
